@@ -16,6 +16,8 @@ PROPS = {
         "explanation": "C16 theorems over the Lean model of src/mem_writer.rs (append laws, patch/frame laws, every valid history is a chain "
                        "of appends and confined patches, string layout, UTF-16 round trip for every string); the model is tied to the code by "
                        "running identical operation histories on the real Buffer/MemoryWriter/MemoryArrayWriter and on the model.",
+        "extra_modules": ["MdwModel.Theorems.DirSlots"],
+        "extra_theorems": ["DirSlots_source_agrees", "DirSlots_entry", "DirSlots_flush"]
     },
     "C09": {
         "rule": "random histories (≤ 24 / ≤ 40 ops) of grow / fill a not-yet-flushed slot / write_to_file(None|Some(entry)) on the real "
@@ -43,8 +45,8 @@ PROPS = {
         "assumptions": ["granularity = Write/Seek trait calls", "an entry and everything it references lie inside the image built when it is published (C01)"],
         "explanation": "C10_flush: every destination state after a completed call of write_to_file is a consistent snapshot of the old or the new "
                        "image; counterexample theorem for the pre-repair order. At the level of the whole-image model (Theorems/Truncated.lean): truncatedImage d k = header, directory with the first k published entries, bytes appended so far — what has reached the destination after the k-th writer's flush; Image_truncated: for every k every published entry lies inside it (in order, extents disjoint), its bytes and entries are those of the complete image, and the last one is the complete image; Image_truncated_entry: a visible entry is the complete image's entry in that slot and its stream lies inside the truncated image.",
-        "extra_modules": ["MdwModel.Theorems.Truncated"],
-        "extra_theorems": ["Image_truncated", "Image_truncated_entry", "stage_ok", "foldl_stages"],
+        "extra_modules": ["MdwModel.Theorems.Truncated", "MdwModel.Theorems.DirSlots"],
+        "extra_theorems": ["Image_truncated", "Image_truncated_entry", "stage_ok", "foldl_stages", "DirSlots_source_agrees", "DirSlots_entry", "DirSlots_flush"],
     },
     "C13": {
         "rule": "generated /proc/<pid>/maps texts (paths, pseudo names, none, ' (deleted)', spaces, [stack:N], /SYSVxxxxxxxx, all permission "
